@@ -7,6 +7,7 @@ import (
 	"strings"
 	"sync"
 	"sync/atomic"
+	"time"
 
 	"ergo.services/ergo/act"
 	"ergo.services/ergo/gen"
@@ -31,13 +32,15 @@ type Thread struct {
 }
 
 type Case struct {
-	Named   bool     `json:"named"`
-	Self    []Msg    `json:"self"`
-	InitOK  bool     `json:"initok"`
-	Threads []Thread `json:"threads"`
-	Sched   []int    `json:"sched"` // prefix of choices; the run is completed lowest-enabled-first
-	Policy  string   `json:"policy"`
-	Tags    []string `json:"tags,omitempty"`
+	Named    bool     `json:"named"`
+	Limit    int      `json:"limit"`    // MailboxSize (0 = unbounded)
+	Fallback bool     `json:"fallback"` // fallback process configured
+	Self     []Msg    `json:"self"`
+	InitOK   bool     `json:"initok"`
+	Threads  []Thread `json:"threads"`
+	Sched    []int    `json:"sched"` // prefix of choices; the run is completed lowest-enabled-first
+	Policy   string   `json:"policy"`
+	Tags     []string `json:"tags,omitempty"`
 }
 
 type Obs struct {
@@ -64,6 +67,7 @@ type Result struct {
 	Reason   int
 	Final    int
 	QLens    [3]int64
+	Fbs      []int
 	MaxOpen  int32
 	Stalled  string
 	SpawnErr bool
@@ -226,6 +230,35 @@ func (h *helper) HandleCall(from gen.PID, ref gen.Ref, request any) (any, error)
 
 type dummy struct{ act.Actor }
 
+// the fallback process: records every MessageFallback it receives
+type fbRec struct {
+	PID gen.PID
+	Tag string
+	ID  int
+}
+type fallbackActor struct {
+	act.Actor
+	mu  sync.Mutex
+	got []fbRec
+}
+
+func (f *fallbackActor) HandleMessage(from gen.PID, message any) error {
+	if fb, ok := message.(gen.MessageFallback); ok {
+		if m, ok := fb.Message.(Msg); ok {
+			f.mu.Lock()
+			f.got = append(f.got, fbRec{fb.PID, fb.Tag, m.ID})
+			f.mu.Unlock()
+		}
+	}
+	return nil
+}
+
+var theFallback *fallbackActor
+var fallbackPID gen.PID
+
+const fallbackName = gen.Atom("verif_fallback")
+const fallbackTag = "verif-tag"
+
 // ---- running one case ---------------------------------------------------------------
 
 var runSeq int
@@ -270,10 +303,14 @@ func runCaseEnabled(node gen.Node, helperPID gen.PID, c Case) (Result, [][]int) 
 		factory := func() gen.ProcessBehavior { return &target{pr: pr} }
 		var pid gen.PID
 		var err error
+		popts := gen.ProcessOptions{MailboxSize: int64(c.Limit)}
+		if c.Fallback {
+			popts.Fallback = gen.ProcessFallback{Enable: true, Name: fallbackName, Tag: fallbackTag}
+		}
 		if c.Named {
-			pid, err = node.SpawnRegister(name, factory, gen.ProcessOptions{})
+			pid, err = node.SpawnRegister(name, factory, popts)
 		} else {
-			pid, err = node.Spawn(factory, gen.ProcessOptions{})
+			pid, err = node.Spawn(factory, popts)
 		}
 		if err != nil {
 			res.SpawnErr = true
@@ -415,6 +452,40 @@ func runCaseEnabled(node gen.Node, helperPID gen.PID, c Case) (Result, [][]int) 
 	res.Reason = pr.reason
 	res.MaxOpen = pr.maxOpen
 	pr.mu.Unlock()
+	// what the fallback process received for this target (wait until it is idle)
+	if c.Fallback && theFallback != nil {
+		for i := 0; i < 5000; i++ {
+			info, err := node.ProcessInfo(fallbackPID)
+			if err == nil && info.State == gen.ProcessStateSleep && info.MailboxQueues.Main == 0 {
+				break
+			}
+			time.Sleep(100 * time.Microsecond)
+		}
+		theFallback.mu.Lock()
+		for _, r := range theFallback.got {
+			if r.PID == tpid {
+				res.Fbs = append(res.Fbs, r.ID)
+				if r.Tag != fallbackTag {
+					res.Stalled = fmt.Sprintf("fallback message %d carries tag %q", r.ID, r.Tag)
+				}
+			}
+		}
+		theFallback.mu.Unlock()
+		// a re-routed send returned nil to its sender: it is not an accepted send of this mailbox
+		var direct []int
+		for _, id := range res.Oks {
+			rer := false
+			for _, f := range res.Fbs {
+				if f == id {
+					rer = true
+				}
+			}
+			if !rer {
+				direct = append(direct, id)
+			}
+		}
+		res.Oks = direct
+	}
 	res.Final = 1
 	if pr.proc != nil {
 		res.Final = int(pr.proc.State())
@@ -474,8 +545,8 @@ func coqCase(c Case, r Result) string {
 	for _, e := range r.Events {
 		evs = append(evs, fmt.Sprintf("(%d, %d)", e.Kind, e.ID))
 	}
-	return fmt.Sprintf("mk_scase %s %s %s [%s] %s [%s] [%s] %s %s %s %d %d %d %s",
-		util.B(c.Named), coqMsgs(c.Self), util.B(c.InitOK), strings.Join(ths, "; "), natList(r.Full),
-		strings.Join(obs, "; "), strings.Join(evs, "; "), natList(r.Handled), natList(r.Oks), natList(r.Errs),
+	return fmt.Sprintf("mk_scase %s %d %s %s %s [%s] %s [%s] [%s] %s %s %s %s %d %d %d %s",
+		util.B(c.Named), c.Limit, util.B(c.Fallback), coqMsgs(c.Self), util.B(c.InitOK), strings.Join(ths, "; "), natList(r.Full),
+		strings.Join(obs, "; "), strings.Join(evs, "; "), natList(r.Handled), natList(r.Oks), natList(r.Errs), natList(r.Fbs),
 		r.Terms, r.Reason, r.Final, util.B(r.QLens[0]+r.QLens[1]+r.QLens[2] == 0))
 }
